@@ -1893,13 +1893,22 @@ def _registry_digits(self, ds):
 
 
 def has_placeholder(s):
-    """does a genuine str contain placeholder characters (symbolic content)?"""
+    """does a genuine str contain placeholder characters registered on the current path?"""
+    eng = Engine.cur
+    if eng is None:
+        return False
+    reg = eng.registry
+    nc, nb, nn = _len(reg.get('chars', ())), _len(reg.get('bits', ())), _len(reg.get('nibbles', ()))
+    nt = _len(reg.get('tokens', ()))
+    if not (nc or nb or nn or nt):
+        return False
     for ch in s:
         o = _ord(ch)
         if o < 0x2C00:
             continue
-        if CHAR_BASE <= o < 0xF800 or ch == TOKEN_OPEN or ch == TOKEN_CLOSE or BIT_BASE <= o < BIT_BASE + 0x10000 \
-                or ch in _HEX_LOWER_IDX or ch in _HEX_UPPER_IDX:
+        if CHAR_BASE <= o < CHAR_BASE + nc or BIT_BASE <= o < BIT_BASE + nb \
+                or (nt and (ch == TOKEN_OPEN or ch == TOKEN_CLOSE)) \
+                or _HEX_LOWER_IDX.get(ch, nn) < nn or _HEX_UPPER_IDX.get(ch, nn) < nn:
             return True
     return False
 
